@@ -1,3 +1,28 @@
+use swimos_api::persistence::{PlanePersistence, ServerPersistence, NodePersistence};
+fn one(d: &str, reopen: bool) {
+        {
+        let s = swimos_rocks_store::open_rocks_store(Some(d.to_string().into()), swimos_rocks_store::default_db_opts()).unwrap();
+        let p = s.open_plane("p").unwrap();
+        let mut nn = futures::FutureExt::now_or_never(p.node_store("/a")).unwrap().unwrap();
+        let id = nn.id_for("x").unwrap();
+        nn.put_value(id, &[1]).unwrap();
+        }
+        if reopen {
+        let s = swimos_rocks_store::open_rocks_store(Some(d.to_string().into()), swimos_rocks_store::default_db_opts()).unwrap();
+        let p = s.open_plane("p").unwrap();
+        let nn = futures::FutureExt::now_or_never(p.node_store("/a")).unwrap().unwrap();
+        let id = nn.id_for("x").unwrap();
+        let mut b = bytes::BytesMut::new();
+        assert_eq!(nn.get_value(id, &mut b).unwrap(), Some(1));
+        }
+        std::fs::remove_dir_all(&d).unwrap();
+}
 fn main() {
-    vcommon::machinery_failure("C13: engine not built yet");
+    for reopen in [false, true] {
+    for th in [1usize, 16] {
+    let t = std::time::Instant::now();
+    let n = 40;
+    std::thread::scope(|s| { for k in 0..th { s.spawn(move || { for i in 0..n { one(&format!("/verif/target/tmp/c13-m-{}-{}", k, i), reopen); } }); } });
+    println!("reopen={} threads={} per seq wall: {:?} (throughput {:.0}/s)", reopen, th, t.elapsed() / n as u32, (n*th) as f64 / t.elapsed().as_secs_f64());
+    }}
 }
